@@ -102,7 +102,19 @@ fn fixture(i: usize) -> Fixture {
           y.versions[0].embed_module_graph = true;
         }
         y.install(l);
-        install_common(l, "import \"jsr:@s/a\";\nimport \"jsr:@s/a@1/\";\nimport \"https://jsr.io/@s/b/1.0.0/mod.ts\";\nimport \"https://jsr.io/@s/a/1.0.0/sub.ts\";\nimport \"./p.ts\";\n");
+        // the second build also asks for a package the first one never met: one requirement that resolves, then one no version satisfies
+        install_common(l, "import \"jsr:@s/a\";\nimport \"jsr:@s/a@1/\";\nimport \"https://jsr.io/@s/b/1.0.0/mod.ts\";\nimport \"https://jsr.io/@s/a/1.0.0/sub.ts\";\nimport \"./p.ts\";\nimport \"jsr:@s/z@1\";\nimport \"jsr:@s/z@^7\";\n");
+        let mut z = RegPackage {
+          name: "@s/z".into(),
+          versions: vec![RegVersion::new("1.0.0", &[("/mod.ts", "export const z = 1;\n")]), RegVersion::new("2.0.0", &[("/mod.ts", "export const z = 2;\n")])],
+          raw_meta: None,
+        };
+        if i == 2 {
+          for v in z.versions.iter_mut() {
+            v.embed_module_graph = true;
+          }
+        }
+        z.install(l);
         l.add_text("https://x/other.ts", "export const other = 1;\n");
         let mut a = RegPackage {
           name: "@s/a".into(),
